@@ -6,6 +6,7 @@ impl VarLabel {
         ensures r == self.0 as usize, r as u64 == self.0,
 //%% end
 }
+#[derive(Clone, Copy)]
 //%% extract src/serialize/ser_sdd.rs :: - :: enum SerSDDPtr
 //%% end
 //%% extract src/serialize/ser_sdd.rs :: - :: struct SDDAnd
@@ -165,7 +166,7 @@ impl SDDSerializer {
 // (`or.iter()` is the slice iterator of `or.nodes`, pinned above); BODY and E are the real text.
 //%% extract src/serialize/ser_sdd.rs :: impl SDDSerializer :: fn serialize_helper
 //%% @ret r
-//%% @rewrite 1 /let compl = matches!\(\n\s*sdd,\n\s*(SddPtr::PtrFalse \| SddPtr::Var\(_, false\) \| SddPtr::ComplBDD\(_\) \| SddPtr::Compl\(_\))\n\s*\);/ => let compl = match sdd { \1 => true, _ => false };
+//%% @rewrite 1 /let compl = matches!\(\s*sdd,\s*([^;]*?),?\s*\);/ => let compl = match sdd { \1 => true, _ => false };
 //%% @rewrite 1 /let o: Vec<SDDAnd> = or\n\s*\.iter\(\)\n\s*\.map\(\|and\| \{/ => let mut o: Vec<SDDAnd> = Vec::new(); let or__v = &or.nodes; let mut or__i: usize = 0; while or__i < or__v.len() { let and = &or__v[or__i];
 //%% @rewrite 1 /(SDDAnd \{ prime: p, sub: s \})\n\s*\}\)\n\s*\.collect\(\);/ => o.push(\1); or__i += 1; }
 //%% @spec
